@@ -326,6 +326,7 @@ CHECKS["C17"] = {
         {"pkg": "keyproof", "run": "TestVF_C17_Components", "rapid": {"quick": 8, "thorough": 120}, "shards": {"quick": 6, "thorough": 16}, "timeout": {"quick": 900, "thorough": 3400}},
         {"pkg": "keyproof", "run": "TestVF_C17_Gennaro", "rapid": {"quick": 2, "thorough": 20}, "shards": {"quick": 3, "thorough": 16}, "timeout": {"quick": 900, "thorough": 3400}},
         {"pkg": "keyproof", "run": "TestVF_C17_BasesValid", "rapid": {"quick": 25, "thorough": 400}, "shards": {"quick": 2, "thorough": 8}, "timeout": {"quick": 900, "thorough": 3400}},
+        {"pkg": "keyproof", "run": "TestVF_C17_PrimeModulus", "rapid": {"quick": 40, "thorough": 400}},
         {"pkg": "keyproof", "run": "TestVF_C17_SideConditions", "rapid": {"quick": 6, "thorough": 60}, "shards": {"quick": 2, "thorough": 8}, "timeout": {"quick": 900, "thorough": 3400}},
         {"pkg": "keyproof", "run": "TestVF_C17_ForgedWhole", "rapid": {"quick": 2, "thorough": 12}, "shards": {"quick": 3, "thorough": 8}, "timeout": {"quick": 900, "thorough": 3400}},
         {"pkg": "keyproof", "run": "TestVF_C17_Whole", "shards": {"quick": 1, "thorough": 6}, "timeout": {"quick": 900, "thorough": 3400}},
